@@ -377,6 +377,8 @@ class EvalMixin:
         if a[0] == 'index':
             v, t = self.ev(a[1], env)
             i, _ = self.ev(a[2], env)
+            if isinstance(v, tuple) and v[0] == 'ghostmap':
+                return [(v[1], (i,), v[2])]
             if isinstance(v, Loc) and v.arrlen is not None:
                 return [(v.key, v.idx + (i,), self.sort_of(v.t))]
             if isinstance(v, SliceV):
